@@ -53,6 +53,7 @@ type DriverOpts struct {
 	Root     string // /verif
 	Self     string // path of the worker binary (non-race)
 	SelfRace string // path of the race-instrumented worker binary ("" if not built)
+	AltBin   string // optional binary built with the second toolchain (same instrumentation as the one selected); odd workers use it
 	Tier     Tier
 	Seed     int64
 	Workers  int
@@ -135,6 +136,7 @@ func Drive(p Prop, o DriverOpts) int {
 		timeout = 120 * time.Minute
 	}
 	var wg sync.WaitGroup
+	altWorkers := 0
 	sem := make(chan struct{}, W)
 	for _, r := range runs {
 		r.out = filepath.Join(workDir, fmt.Sprintf("w%d.json", r.k))
@@ -142,11 +144,16 @@ func Drive(p Prop, o DriverOpts) int {
 		r.raceLog = filepath.Join(workDir, fmt.Sprintf("race%d", r.k))
 		wg.Add(1)
 		sem <- struct{}{}
-		go func(r *workerRun) {
+		wbin := bin
+		if o.AltBin != "" && r.k%2 == 1 {
+			wbin = o.AltBin
+			altWorkers++
+		}
+		go func(r *workerRun, wbin string) {
 			defer wg.Done()
 			defer func() { <-sem }()
-			runWorkerProc(bin, id, o, r, info.Race, timeout)
-		}(r)
+			runWorkerProc(wbin, id, o, r, info.Race, timeout)
+		}(r, wbin)
 	}
 	wg.Wait()
 
@@ -205,6 +212,9 @@ func Drive(p Prop, o DriverOpts) int {
 			merged.Samples = append(merged.Samples, wr.Samples...)
 		}
 		viols = append(viols, wr.Violations...)
+	}
+	if altWorkers > 0 {
+		merged.Counters["workers_built_with_second_toolchain_go1.26.8"] = int64(altWorkers)
 	}
 	// race reports
 	raceReports := 0
